@@ -52,7 +52,7 @@ theorem block_out (c : Cfg) (p : Frame → Bool) (d : Nat) (s : St) (evs : List 
     · split
       · rw [ih]; simp [St.absorb, outOf_cons]; cases e.reply <;> simp
       · split
-        · simp [St.absorb, outOf_cons]; cases e.reply <;> simp
+        · split <;> (simp [St.absorb, outOf_cons]; cases e.reply <;> simp)
         · split
           · simp [St.absorb, outOf_cons]; cases e.reply <;> simp
           · rw [ih]; simp [St.absorb, outOf_cons]; cases e.reply <;> simp
@@ -68,7 +68,7 @@ theorem block_rd (c : Cfg) (p : Frame → Bool) (d : Nat) (s : St) (evs : List E
     · split
       · rw [ih]; rfl
       · split
-        · rfl
+        · split <;> rfl
         · split
           · rfl
           · rw [ih]; rfl
@@ -87,7 +87,7 @@ theorem block_now (c : Cfg) (p : Frame → Bool) (d : Nat) (s : St) (evs : List 
       split
       · exact ih _ h1
       · split
-        · exact h1
+        · split <;> exact h1
         · split
           · exact h1
           · exact ih _ h1
@@ -107,7 +107,11 @@ theorem block_timeout_now (c : Cfg) (p : Frame → Bool) (d : Nat) (s : St) (evs
       · rename_i he
         simp only [hlt, he, if_false] at ht
         split
-        · rename_i hs; simp [hs] at ht
+        · rename_i hs
+          simp only [hs] at ht
+          by_cases hg : (e.died && !(e.frames.head?.any p)) = true
+          · rw [if_pos hg] at ht; cases ht
+          · rw [if_neg hg] at ht; cases ht
         · rename_i hs
           simp only [hs] at ht
           split
@@ -146,6 +150,7 @@ theorem block_spec (c : Cfg) (p : Frame → Bool) (d : Nat) (s : St) (evs : List
       · split
         · rename_i pre f post hs
           rw [hq1] at hs
+          rw [if_neg (by simp [hd.head])]
           refine ⟨by rw [← List.append_assoc]; exact (waitRef_append_some p _ hs).symm, hc1, ?_⟩
           obtain ⟨e1, e2, e3⟩ := findSplit_sound p hs
           refine ⟨pre, post ++ allFrames es, ?_, e2, e3, by simp [requeueFront]⟩
@@ -179,7 +184,7 @@ theorem block_taken (c : Cfg) (p : Frame → Bool) (d : Nat) (s : St) (evs : Lis
           · exact hlt'
           · exact h3 x hx
       · split
-        · exact ⟨[e], by simp, by simp [ho], by simpa using hlt'⟩
+        · split <;> exact ⟨[e], by simp, by simp [ho], by simpa using hlt'⟩
         · split
           · exact ⟨[e], by simp, by simp [ho], by simpa using hlt'⟩
           · obtain ⟨tk, h1, h2, h3⟩ := ih (s.absorb c e)
@@ -307,11 +312,11 @@ def writeRes (tmo : Nat) : WaitRes → OpRes
   | .got (.ackNeg _ _ code _) => if code = nackTargetUnreachable then .ok else .nack (nackName code)
   | .got _ => .ok
   | .conn => .conn
-  | .timeout => if tmo < ackTimeoutMs then .timeout else .conn
+  | .timeout => if tmo ≤ ackTimeoutMs then .timeout else .conn
 
 /-- the state a write leaves: the acknowledgement timeout closes the connection -/
 def writeSt (tmo : Nat) (r : WaitRes) (s1 : St) : St :=
-  if r = .timeout ∧ ¬ tmo < ackTimeoutMs then { s1 with closed := true } else s1
+  if r = .timeout ∧ ¬ tmo ≤ ackTimeoutMs then { s1 with closed := true } else s1
 
 /-- the connection state in which a write waits for its acknowledgement -/
 def St.sent (s : St) (bytes : Bytes) : St := { s with out := s.out ++ [(s.now, bytes)] }
@@ -330,16 +335,16 @@ theorem writeBody_eq (c : Cfg) (data : Bytes) (tmo : Nat) (s : St) (evs : List E
   | got f => cases f <;> simp [writeRes, writeSt]
   | conn => simp [writeRes, writeSt]
   | timeout =>
-    by_cases h : tmo < ackTimeoutMs <;> simp [writeRes, writeSt, h]
+    by_cases h : tmo ≤ ackTimeoutMs <;> simp [writeRes, writeSt, h]
 
 def connRes (tmo : Nat) : WaitRes → OpRes
   | .got (.rar _ _ code) => if code = raSuccess then .ok else .denied (racName code)
   | .got _ => .conn
   | .conn => .conn
-  | .timeout => if tmo < raTimeoutMs then .timeout else .conn
+  | .timeout => if tmo ≤ raTimeoutMs then .timeout else .conn
 
 def connSt (tmo : Nat) (r : WaitRes) (s1 : St) : St :=
-  if r = .timeout ∧ ¬ tmo < raTimeoutMs then { s1 with closed := true } else s1
+  if r = .timeout ∧ ¬ tmo ≤ raTimeoutMs then { s1 with closed := true } else s1
 
 theorem connectBody_eq (c : Cfg) (atype : UInt8) (tmo : Nat) (s : St) (evs : List Ev) :
     connectBody c atype tmo s evs =
@@ -355,7 +360,7 @@ theorem connectBody_eq (c : Cfg) (atype : UInt8) (tmo : Nat) (s : St) (evs : Lis
   | got f => cases f <;> simp [connRes, connSt]
   | conn => simp [connRes, connSt]
   | timeout =>
-    by_cases h : tmo < raTimeoutMs <;> simp [connRes, connSt, h]
+    by_cases h : tmo ≤ raTimeoutMs <;> simp [connRes, connSt, h]
 
 /-- the event timeline of a call: what the reader task makes of the chunks arriving during it -/
 def timeline (s : St) (arr : List (Nat × Bytes)) : List Ev := (s.rd.run (shift s.now arr)).2
